@@ -300,6 +300,10 @@ CommonAxis(Ls, join, sort) ==
       witness == IF join = "outer" THEN FirstAppearance(Ls) ELSE SelectSeq(Ls[1], LAMBDA v : v \in set)
   IN IF sort THEN [labs |-> SortSet(set), free |-> FALSE]
      ELSE IF Len(ne) > 0 /\ \A i \in 1..Len(ne) : ne[i] = ne[1] THEN [labs |-> ne[1], free |-> FALSE]
+     \* axes of fewer than two labels have no direction of their own: they are sorted in whichever direction the others are
+     \* (outer join; an inner join keeps the first input's order, so there every input must have a direction)
+     ELSE IF join = "outer" /\ (\E i \in 1..Len(Ls) : Len(Ls[i]) >= 2) /\ (\A i \in 1..Len(Ls) : IsInc(Ls[i])) THEN [labs |-> SortSet(set), free |-> FALSE]
+     ELSE IF join = "outer" /\ (\E i \in 1..Len(Ls) : Len(Ls[i]) >= 2) /\ (\A i \in 1..Len(Ls) : IsDec(Ls[i])) THEN [labs |-> Rev(SortSet(set)), free |-> FALSE]
      ELSE IF \A i \in 1..Len(Ls) : Len(Ls[i]) >= 2 /\ IsInc(Ls[i]) THEN [labs |-> SortSet(set), free |-> FALSE]
      ELSE IF \A i \in 1..Len(Ls) : Len(Ls[i]) >= 2 /\ IsDec(Ls[i]) THEN [labs |-> Rev(SortSet(set)), free |-> FALSE]
      ELSE [labs |-> witness, free |-> TRUE]
